@@ -28,7 +28,7 @@ CLS_LEAN = {
 }
 # source text of a hash_key element -> model attribute(s)
 ELEM = {
-    'self.value': ['value'], 'self.var.name': ['varName'], 'self.I': ['I'], 'self.D': ['D'], 'self.parametric': ['parametric'],
+    'self.value': ['value'], 'repr(self.value)': ['value'], 'self.var.name': ['varName'], 'self.I': ['I'], 'self.D': ['D'], 'self.parametric': ['parametric'],
     'self.funcname': ['funcname'], 'self.oper': ['oper'], 'self.physical': ['physical'], 'self.axis': ['axis'],
 }
 BF_ELEM = {'self.name': 'bfName', 'self.numcomp': 'bfNumcomp', 'self.component': 'bfComponent', 'self.space': 'bfSpace'}
